@@ -497,6 +497,9 @@ def _strat_sampled(draw, tier):
                 if _pitched(n) and n["alter"] == 0:
                     n["alter"] = None  # importer style natural
         parts.append(ps)
+    if nparts == 2 and draw(st.integers(0, 2)) == 0:
+        # two distinct parts carrying the same part id (e.g. a score assembled from two files)
+        parts[1]["id"] = parts[0]["id"]
     return {
         "arg": arg,
         "parts": parts,
